@@ -134,6 +134,15 @@ def run_case(case):
     C = Counter()
     viol = util.ViolList()
     sp = case["spec"]
+    if len(sp["reactions"]) % 2 == 0 or any(r["type"] == "general" for r in sp["reactions"]):
+        # history: a twin with the same reactions and parameters but the species declared in the opposite order was built (and
+        # differentiated once) in this process before; the model under test owes nothing to it
+        try:
+            twin = specmod.build_model(dict(sp, species=list(reversed(sp["species"]))), "ctor")
+            py_get_jacobian(twin, np.array([1.0 + 0.5 * j for j in range(len(sp["species"]))]))
+            C["models_built_after_a_reordered_twin"] += 1
+        except Exception:
+            pass
     M = specmod.build_model(sp, "ctor")
     species = M.get_species_list()
     defs = M.__getstate__()[17]          # reaction definitions with dummy parameter names substituted
